@@ -85,7 +85,64 @@ theorem C23_violation_needs_outdated_leases (n thresh : Nat) (topics : List (Nam
   | false => rfl
   | true => rw [C23_partial n thresh topics acts ev h hc] at hv; cases hv
 
+theorem tasks_setup (n thresh : Nat) (topics : List (Name × Nat)) : (setup n thresh topics).tasks = AMap.empty := by
+  unfold setup
+  have hnext : ∀ (w : World) (m : Nat), (applyNext w m).1.tasks = w.tasks := by
+    intro w m; unfold applyNext; simp only; split <;> rfl
+  have hon : ∀ (fuel : Nat) (w : World) (m : Nat), (applyAllOn w m fuel).tasks = w.tasks := by
+    intro fuel
+    induction fuel with
+    | zero => intro w m; rfl
+    | succ k ih =>
+      intro w m
+      unfold applyAllOn
+      have := hnext w m
+      split
+      · rename_i w' _ heq; rw [heq] at this; rw [ih, this]
+      · rename_i w' heq; rw [heq] at this; exact this
+  have hall : ∀ (w : World), (applyAll w).tasks = w.tasks := by
+    intro w
+    unfold applyAll
+    have : ∀ (l : List Nat) (w : World), (l.foldl (fun w n => applyAllOn w n (w.log.length + 1)) w).tasks = w.tasks := by
+      intro l
+      induction l with
+      | nil => intro w; rfl
+      | cons a r ih => intro w; simp only [List.foldl_cons]; rw [ih, hon]
+    exact this _ w
+  have : ∀ (l : List (Name × Nat)) (w : World), w.tasks = AMap.empty →
+      (l.foldl (fun w t => createTopic w t.1 t.2) w).tasks = AMap.empty := by
+    intro l
+    induction l with
+    | nil => intro w h; exact h
+    | cons a r ih =>
+      intro w h
+      apply ih
+      unfold createTopic
+      rw [hall]; exact h
+  apply this
+  unfold initWorld
+  rw [hall]
+
+/-- **C23 on schedules whose applies are quiet.** If the schedule applies a log entry on a node only while no append
+is in flight on that node (between its lease refresh and its write), then - whatever else happens: any number of
+tasks, interleaved steps, lease syncs, applies on *other* nodes at any time - every write goes into a segment that
+the writing node's applied metadata has open and assigns to it.  Together with `C23_counterexample` this pins the
+defect down: the only way to violate C23 is an apply on the writing node inside that window. -/
+theorem C23_holds_when_applies_are_quiet (n thresh : Nat) (topics : List (Name × Nat)) (acts : List Act)
+    (hq : QuietSchedule (setup n thresh topics) acts) :
+    ∀ ev ∈ (runActs (setup n thresh topics) acts).writes, ev.ownedAtWrite = true :=
+  allOwned_quiet _ acts hq (leaseInv_setup n thresh topics)
+    (by intro tid t hget; rw [tasks_setup] at hget; simp [AMap.empty, AMap.get?] at hget)
+    (by unfold AllOwned; rw [writes_setup]; intro ev h; simp at h)
+
 def ta : Name := ['a']
+
+/-- a schedule with two overlapping PUTs on one node (task 1 waits for the key lock task 2 holds) and the rollover
+applied after both wrote is quiet; both writes are owned -/
+example : QuietSchedule (setup 2 2 [(ta, 1)])
+    [.spawn 1 (.putStart 1 ta 1), .step 1, .step 1, .spawn 2 (.putStart 1 ta 2), .step 2, .step 2, .step 2, .step 1,
+     .step 2, .step 2, .step 1, .step 1, .step 1, .step 1, .step 2, .step 2, .step 1, .apply 1, .apply 2, .step 1] :=
+  quietScheduleB_sound _ _ (by decide +kernel)
 
 /-- a PUT that runs alone: its write is made under a current lease set (the hypothesis of `C23_partial` is met) -/
 example : (runActs (setup 2 2 [(ta, 1)])
